@@ -1,7 +1,7 @@
 (* Props/C03.v -- property C03: calendar, ordinal and ISO-week dates are
    faithful views of one day.  Statements only; every proof is `exact` of a
    lemma of Proofs/.  All statements are for every mode and every year in Z. *)
-From Iso Require Import Proofs.Tac Spec.Cal Model.Helpers Proofs.TablesOk Proofs.HelpersSpec Proofs.ConvSpec.
+From Iso Require Import Proofs.Tac Spec.Cal Model.Helpers Proofs.TablesOk Proofs.HelpersSpec Proofs.ConvSpec gen.GenCode Proofs.GenCodeOk.
 
 (* --- queries agree with the proleptic definition --- *)
 Theorem C03_tables : gen.CalTables.translator_ok_cal = true /\
@@ -10,6 +10,20 @@ Theorem C03_tables : gen.CalTables.translator_ok_cal = true /\
   forallb mode_row_ok gen.CalTables.MODES = true.
 Proof. exact tables_all_ok. Qed.
 Print Assumptions C03_tables.
+
+(* the bodies of the pure integer helpers, TRANSLATED from data.py on this run
+   (tools/translate_code.py -> gen/GenCode.v), are equal to the hand-written model
+   functions the theorems below are about: a source change to one of these
+   functions changes the generated definition and breaks this obligation *)
+Theorem C03_code : gen.GenCode.translator_ok_code = true /\
+  (forall y, py_get_is_leap_year y = get_is_leap_year y) /\
+  (forall md y, py__get_days_in_year (DAYS_IN_YEAR md) (DAYS_IN_YEAR_LEAP md) y = get_days_in_year md y) /\
+  (forall md m y, py__get_days_in_month (DAYS_IN_MONTHS md) (DAYS_IN_MONTHS_LEAP md) m y = get_days_in_month md m y) /\
+  (forall md s e, py__get_days_in_year_range (DAYS_IN_YEAR md) (DAYS_IN_YEAR_LEAP md) s e = get_days_in_year_range md s e) /\
+  (forall md y, py__get_days_since_1_ad (DAYS_IN_YEAR md) (DAYS_IN_YEAR_LEAP md) y = get_days_since_1_ad md y).
+Proof. exact (conj gen_code_accepted (conj gen_get_is_leap_year_eq (conj gen__get_days_in_year_eq
+  (conj gen__get_days_in_month_eq (conj gen__get_days_in_year_range_eq gen__get_days_since_1_ad_eq))))). Qed.
+Print Assumptions C03_code.
 
 Theorem C03_leap : forall y, get_is_leap_year y = is_leap y.
 Proof. exact get_is_leap_year_spec. Qed.
